@@ -1494,6 +1494,10 @@ pub fn gen(thorough: bool, seed: u64, out: &mut impl Write) {
     let b = r.pick(&iotas).clone();
     iotas.push(String::from_utf8_lossy(&mutate(&mut r, b.as_bytes())).to_string());
   }
+  // the default network (or another one) followed by an EMPTY tag, repeated default-network segments
+  for s in ["did:iota:iota:", "did:iota:IOTA:", "did:iota::", "did:iota:smr:", "did:iota:iota:iota:", "did:iota:iota:0x", "did:iota:iota", "did:iota:", "did:key:iota:", "did:iota:iota::"] {
+    iotas.push(s.to_string());
+  }
   for s in &iotas {
     emit2(out, "iota", s.as_bytes(), s.to_lowercase().as_bytes());
     emit(out, "did", s.as_bytes());
